@@ -4,7 +4,7 @@ package main
 
 // The tie of MiniJS STATEMENTS (coq/Model/MiniJS.v: js_exec) to V8: random statements of the subset of
 // C04_gen_correct_partial_stmt (raw text, print with directives, let in both forms, if / elseif / else, switch with case
-// groups and default, nested blocks) are given to the model (op minijs_stmt), which returns the JavaScript
+// groups and default, foreach / ifempty and for over range() with index / isFirst / isLast of the enclosing loops, css, nested blocks) are given to the model (op minijs_stmt), which returns the JavaScript
 // text the generator model writes for them (sprint (sgen s)), the text the subset semantics writes (sout)
 // and the variables after MiniJS executed the statement (js_exec) from an empty buffer; node runs the same
 // text inside a function that declares the same variables (soyutils.js loaded), and must end with the same
@@ -35,11 +35,54 @@ func (g *cexprGen) blk(d int) string {
 }
 
 func (g *cexprGen) stmt(d int) string {
-	k := g.r.Intn(10)
+	k := g.r.Intn(12)
 	if d <= 0 && k >= 6 {
 		k = g.r.Intn(6)
 	}
 	switch {
+	case k >= 10:
+		// {foreach $v in <list>}..{ifempty}..{/foreach}: the list outside the loop's scope, the variable an integer inside
+		v := g.r.Pick([]string{"v", "w", "x", "v"})
+		lst := g.r.Pick([]string{"(cvar " + sx("l") + ")", "(cvar " + sx("a") + " (key 0 " + sx("l") + "))", "(cvar " + sx("e") + ")", "(cvar " + sx("l") + ")",
+			"(cvar " + sx("a") + " (key 1 " + sx("l") + "))"})
+		if g.r.Chance(6) {
+			lst = g.r.Pick([]string{"(cvar " + sx("u") + ")", "(cvar " + sx("a") + ")", "(cvar " + sx("s") + ")", "(cnull)"}) // not a list: outside the subset
+		}
+		// {for $v in range(..)}: one to three integer arguments; now and then a zero or negative step, a string, four arguments
+		isRange := g.r.Chance(40)
+		rargs := ""
+		if isRange {
+			small := func() string {
+				return g.r.Pick([]string{"(cint 0)", "(cint 1)", "(cint 2)", "(cint 3)", "(cint 5)", "(cint -2)", "(cint 7)", "(cvar " + sx("x") + ")", "(cvar " + sx("a") + " (key 0 " + sx("b") + "))",
+					"(cbin add (cvar " + sx("x") + ") (cint 1))", "(cbin sub (cint 6) (cvar " + sx("x") + "))"}) // small: the models build the list
+			}
+			rargs = small()
+			for k := g.r.Intn(3); k > 0; k-- {
+				rargs += " " + small()
+			}
+			if g.r.Chance(4) {
+				rargs += " " + g.r.Pick([]string{"(cint 0)", "(cint -1)", "(cstr " + sx("2") + ")", "(cint 1) (cint 1) (cint 1)"})
+			}
+		}
+		ni, nl := len(g.intVars), len(g.loops)
+		g.intVars, g.loops = append(g.intVars, v), append(g.loops, v)
+		body := g.blk(d - 1)
+		g.intVars, g.loops = g.intVars[:ni], g.loops[:nl]
+		hasie, ie := "0", "(blk)"
+		if g.r.Chance(50) {
+			hasie, ie = "1", g.blk(d-1)
+		}
+		if isRange {
+			return "(sforrange " + sx(v) + " (" + rargs + ") " + body + " " + hasie + " " + ie + ")"
+		}
+		return "(sfor " + sx(v) + " " + lst + " " + body + " " + hasie + " " + ie + ")"
+	case k < 2 && g.r.Chance(25):
+		// {css sfx} / {css e, sfx}
+		sfx := sx(g.r.Pick([]string{"foo", "bar-baz", "a_b", "it's"}))
+		if g.r.Bool() {
+			return "(scss none " + sfx + ")"
+		}
+		return "(scss " + g.expr(g.r.Intn(4), 1) + " " + sfx + ")"
 	case k < 2:
 		return "(sraw " + sx(g.r.Pick([]string{"A", "b c", "it's", "<p>", "x\ny", "\"q\"", "</script>", "\\", ""})) + ")"
 	case k < 4:
@@ -118,7 +161,7 @@ const c04StmtScopeSexp = "(scope (x78 x785f33) (x73 x735f3132))" // x -> x_3, s 
 const c04StmtCounter = "12"
 const c04StmtJSVars = "var x_3 = 4; var s_12 = \"hi'x\";"
 
-var c04StmtData = map[string]interface{}{"a": map[string]interface{}{"b": 5, "l": []interface{}{10, 20}, "n": nil, "s": "zz"}, "f": true, "l": []interface{}{3, 4}}
+var c04StmtData = map[string]interface{}{"a": map[string]interface{}{"b": 5, "l": []interface{}{10, 20}, "n": nil, "s": "zz"}, "e": []interface{}{}, "f": true, "l": []interface{}{3, 4}}
 var c04StmtIJ = map[string]interface{}{"n": 6}
 
 func c04StmtTie(e *env, n int) {
@@ -129,7 +172,7 @@ func c04StmtTie(e *env, n int) {
 		mode := 1 + g.r.Intn(2)
 		modes = append(modes, mode)
 		// a block, so that sequences and lets followed by uses occur at the top; now and then a variable that was never bound
-		g.intVars, g.strVars = nil, nil
+		g.intVars, g.strVars, g.loops = nil, nil, nil
 		if g.r.Chance(5) {
 			g.intVars = []string{"w"}
 		}
@@ -217,7 +260,7 @@ func c04StmtTie(e *env, n int) {
 				cls = "outside-subset"
 			}
 			e.res.Count("stmt:"+it.req, it.sout != "none", "minijs-stmt:"+cls+":"+it.cls)
-			for _, f := range []string{"var ", " = '';", "} else if (", "} else {", "switch (", "default:", "case "} {
+			for _, f := range []string{"var ", " = '';", "} else if (", "} else {", "switch (", "default:", "case ", "for (var ", ".length;", " > 0) {", " == 0)", " - 1)", "Math.ceil(", " + '-';"} {
 				if strings.Contains(it.text, f) {
 					e.res.Histogram["minijs-stmt:has:"+strings.TrimSpace(f)]++
 				}
